@@ -118,28 +118,28 @@ def coq_codes(s):
     return '[' + '; '.join(str(ord(c)) for c in s) + ']'
 
 
-def regen_taps():
+def regen_taps(holder=None):
+    """reflection dump of the live tables -> coq/Gen/GenTaps.v ; then the static (AST) evaluation of TAPS.__init__ must
+    give the same tables, otherwise Untranslatable (fail closed; the Gen file then still holds the live tables so
+    that the search for a failing input runs against what the code really uses)"""
     path = os.path.join(fw.REPO, TAPS_PY)
-    static, lines = ast_tables(path)
     live = fw.run_impl('impl_c14.py', {'table': True})['table']
+    if holder is not None:
+        holder.live_table = live
     if not live['types_ok'] or live['keys'] != ['False', 'True']:
         raise py2coq.Untranslatable('live TAPS().context_mapping is not {False: {str: str}, True: {str: str}}: %r' % (live,))
     chunks = []
     for name, which in (('ctx_unmeth', 'False'), ('ctx_meth', 'True')):
         ent = live[which]
-        st = static[which == 'True']
-        if [list(e) for e in ent] != [[k, v] for k, v in st.items()]:
-            raise py2coq.Untranslatable('the table read from the live TAPS() object differs from the static evaluation of '
-                                        'TAPS.__init__ (%s): live %r static %r' % (name, ent, list(st.items())))
         for k, v in ent:
             if len(v) != 1 or any(ord(c) > 127 for c in k + v):
                 raise py2coq.Untranslatable('table entry %r: %r is not (ascii string -> one ascii character)' % (k, v))
         chunks.append('Definition %s : list (list Z * Z) :=\n  [%s].' % (
             name, ';\n   '.join('(%s, %d) (* %s -> %s *)' % (coq_codes(k), ord(v), k, v) for k, v in ent)))
-    src_lines = open(path).read().splitlines()[lines[0] - 1:lines[1]]
-    sha = hashlib.sha256('\n'.join(src_lines).encode()).hexdigest()
-    head = '(* source: %s lines %d-%d sha256 %s ; tables dumped from the live TAPS() object (reflection) and\n' \
-           '   compared with the static evaluation of the literals in TAPS.__init__ *)' % (TAPS_PY, lines[0], lines[1], sha)
+    src = open(path).read()
+    sha = hashlib.sha256(src.encode()).hexdigest()
+    head = '(* source: %s sha256 %s ; tables dumped from the live TAPS() object (reflection) and\n' \
+           '   compared with the static evaluation of the literals in TAPS.__init__ *)' % (TAPS_PY, sha)
     text = '(* GENERATED by tools/c14.py from /repo\'s working tree on every run. Do not edit. *)\n' \
            'From Coq Require Import ZArith List.\nImport ListNotations.\nOpen Scope Z_scope.\n\n' + head + '\n' + \
            '\n\n'.join(chunks) + '\n'
@@ -148,6 +148,12 @@ def regen_taps():
     if old != text:
         with open(gp, 'w') as f:
             f.write(text)
+    static, lines = ast_tables(path)
+    for name, which in (('ctx_unmeth', 'False'), ('ctx_meth', 'True')):
+        st = static[which == 'True']
+        if [list(e) for e in live[which]] != [[k, v] for k, v in st.items()]:
+            raise py2coq.Untranslatable('the table read from the live TAPS() object differs from the static evaluation of '
+                                        'TAPS.__init__ (%s): live %r static %r' % (name, live[which], list(st.items())))
     return [{'source': TAPS_PY, 'lines': lines, 'sha256': sha, 'coq': 'ctx_unmeth, ctx_meth',
              'entries': [len(live['False']), len(live['True'])]}], live
 
@@ -470,7 +476,7 @@ class Prop(fw.PropBase):
     ]
 
     def regen(self):
-        meta, self.live_table = regen_taps()
+        meta, self.live_table = regen_taps(self)
         return meta
 
     # ---------------------------------------------------------------- generators
